@@ -45,9 +45,16 @@ type HostileResult struct {
 }
 
 // c08 scenario: static3, 30 fair steps (blocks exist), then node 1 learns news node 0 lacks.
-func c08Build(st string) *sched.Exec {
+func c08Build(st string) *sched.Exec { return c08BuildOn(st, false) }
+
+// c08BuildOn: badger=true puts node 0 on a BadgerStore (for the cases that end with a restart from the database).
+func c08BuildOn(st string, badger bool) *sched.Exec {
 	sc := sched.Static(3, 30)
 	sc.Name = "c08-" + st
+	if badger {
+		sc.Cfg.Badger = map[int]bool{0: true}
+		sc.Cfg.Dir = scratchDir()
+	}
 	steps := sc.Seed
 	if st == "fresh" {
 		steps = nil
@@ -679,6 +686,9 @@ type byzCase struct {
 	// sig != nil: validator 1 itself is the adversary: its next (otherwise regular) self-event carries this
 	// block signature; it reaches the target through a regular exchange
 	sig *hg.BlockSignature
+	// restart: node 0 keeps its history in a database; after the continuation it is stopped and bootstrapped from it
+	// and must know every event and re-deliver every block it had
+	restart bool
 }
 
 func byzCases() []byzCase {
@@ -737,6 +747,36 @@ func byzCases() []byzCase {
 			}
 		}
 	}
+	// the structurally right next event of validator 1 (right self-parent and index) with a signature that does not
+	// verify; the node runs on a database and is restarted from it afterwards
+	for _, sgs := range []string{"zz|zz", "1|1", "", "abc"} {
+		sg := sgs
+		cases = append(cases, byzCase{restart: true,
+			name: fmt.Sprintf("the right next event of validator 1 with signature %q, then a restart from the database", sg),
+			mk: func(c *sim.Cluster) (*hg.WireEvent, uint32, bool) {
+				t := c.Nodes[0]
+				l, err := t.Store.ParticipantEvents(sim.PubHex(1), -1)
+				if err != nil || len(l) == 0 {
+					return nil, 0, false
+				}
+				sp, err := t.Store.GetEvent(l[len(l)-1])
+				if err != nil {
+					return nil, 0, false
+				}
+				op, _ := t.Store.LastEventFrom(sim.PubHex(0))
+				e := hg.NewEvent([][]byte{[]byte("byz")}, nil, nil, []string{sp.Hex(), op}, sim.PubOf(1), sp.Index()+1)
+				e.Body.Timestamp = sim.BaseTime + 999
+				if err := e.Sign(sim.Key(1)); err != nil {
+					return nil, 0, false
+				}
+				if err := t.Node.VHashgraph().SetWireInfo(e); err != nil {
+					return nil, 0, false
+				}
+				w := e.ToWire()
+				w.Signature = sg
+				return &w, c.Nodes[1].Peer.ID(), true
+			}})
+	}
 	// an admissible event of a validator whose block-signature payload is hostile
 	for _, sg := range []struct {
 		name, sig string
@@ -767,7 +807,7 @@ func runByz(it HostileItem, res *HostileResult) {
 	for k := it.From; k < len(cases) && k < it.To; k++ {
 		bc := cases[k]
 		for _, via := range []string{"eager-sync request", "sync response"} {
-			x := c08Build(it.State)
+			x := c08BuildOn(it.State, bc.restart)
 			c := x.C
 			var w *hg.WireEvent
 			var from uint32
@@ -816,7 +856,7 @@ func runByz(it HostileItem, res *HostileResult) {
 				viol("delivered-blocks-changed", bc.name+" changed delivered blocks", rp)
 			}
 			// afterwards valid exchanges must work (they do on a twin that never saw the message) and new work commits
-			twin := c08Build(it.State)
+			twin := c08BuildOn(it.State, false)
 			if bc.sig != nil {
 				twin.Step(sched.Action{K: "G", A: 1, B: 0})
 			}
@@ -832,6 +872,23 @@ func runByz(it HostileItem, res *HostileResult) {
 			if !sr.Quiescent && !x.Dead() {
 				if st := twin.FairSuffix(40); st.Quiescent {
 					viol("no-progress-afterwards", fmt.Sprintf("after (%s, delivered as %s) the cluster does not become quiescent within 40 fair cycles (%s); a twin that never saw it does", bc.name, via, sr.Reason), rp)
+				}
+			}
+			if bc.restart && !x.Dead() {
+				n0 := c.Nodes[0]
+				known := fmt.Sprint(sortedKnown(n0.Store.KnownEvents()))
+				cdBefore := commitsDigest(n0)
+				if err := c.Restart(0, true, false); err != nil {
+					viol("restart-failed-afterwards", fmt.Sprintf("after (%s) node 0 could not be restarted from its database: %v", bc.name, err), rp)
+				} else {
+					n1 := c.Nodes[0]
+					if k := fmt.Sprint(sortedKnown(n1.Store.KnownEvents())); k != known {
+						viol("history-lost-after-restart", fmt.Sprintf("after (%s, delivered as %s) and a restart from its database node 0 knows %s; before the restart it knew %s", bc.name, via, k, known), rp)
+					}
+					if d := commitsDigest(n1); d != cdBefore {
+						viol("delivered-blocks-changed-after-restart", fmt.Sprintf("after (%s, delivered as %s) and a restart from its database node 0 re-delivers other blocks than it had delivered", bc.name, via), rp)
+					}
+					res.Outcomes["byz: restarted from the database afterwards"]++
 				}
 			}
 			res.Rejected++
